@@ -450,21 +450,14 @@ fn try_write_prelude_part<Body>(
 
         Phase::SendHeaders(index) => {
             let header_count = request.headers_len();
-
-            if header_count == 0 {
-                // No header at all (a target without a host to derive one from):
-                // the empty line alone ends the head.
-                if w.try_write(|w| write!(w, "\r\n")) {
-                    state.phase = Phase::SendBody;
-                }
-                return false;
-            }
             let all = request.headers();
             let skipped = all.skip(*index);
 
-            do_write_headers(skipped, index, header_count - 1, w);
+            do_write_headers(skipped, index, w);
 
-            if *index == header_count {
+            // The empty line ending the head goes with the last header when both fit,
+            // and on its own when they do not (or when there is no header at all).
+            if *index == header_count && w.try_write(|w| write!(w, "\r\n")) {
                 state.phase = Phase::SendBody;
             }
             false
@@ -479,7 +472,7 @@ fn do_write_send_line(line: (&Method, &str, Version), w: &mut Writer) -> bool {
     w.try_write(|w| write!(w, "{} {} {:?}\r\n", line.0, line.1, line.2))
 }
 
-fn do_write_headers<'a, I>(headers: I, index: &mut usize, last_index: usize, w: &mut Writer)
+fn do_write_headers<'a, I>(headers: I, index: &mut usize, w: &mut Writer)
 where
     I: Iterator<Item = (&'a HeaderName, &'a HeaderValue)>,
 {
@@ -488,9 +481,6 @@ where
             write!(w, "{}: ", h.0)?;
             w.write_all(h.1.as_bytes())?;
             write!(w, "\r\n")?;
-            if *index == last_index {
-                write!(w, "\r\n")?;
-            }
             Ok(())
         });
 
